@@ -115,6 +115,119 @@ theorem ctRun_countInv : ∀ (n : Nat) (s s' : PState) (ws : List (List Event)),
 
 end
 
+/-- before the first jump back to the loop point the loop count is not positive -/
+def JumpInv (a : Acc) : Prop := a.lastLoopJump = -1 → a.loopCount ≤ 0
+
+section
+variable (song : Song) (root : List Event)
+
+theorem step_jumpInv (s s' : PState) (em : Emit) (h : step song root true s = .ok (s', em)) (hi : JumpInv s.acc) :
+    JumpInv s'.acc := by
+  unfold step at h
+  cases hc : coreStep song root s.core with
+  | error e => rw [hc] at h; simp at h
+  | ok p =>
+    obtain ⟨c', o⟩ := p
+    rw [hc] at h
+    simp only [Except.ok.injEq, Prod.mk.injEq] at h
+    obtain ⟨rfl, _⟩ := h
+    unfold JumpInv at *
+    unfold accStep
+    cases o with
+    | hook v f =>
+      simp only
+      split
+      · intro _; simp
+      · exact hi
+    | ret f => exact hi
+    | rootEnd f =>
+      simp only
+      split
+      · intro hh; simp only at hh; omega
+      · exact hi
+
+/-- an invariant of the accumulators that `step_event` keeps and that does not read the time
+fields is kept by any number of ticks -/
+theorem ctRun_accInv (I : Acc → Prop)
+    (hstep : ∀ s s' em, step song root true s = .ok (s', em) → I s.acc → I s'.acc)
+    (htime : ∀ (a : Acc) (on off pt : Nat), I a → I { a with onTime := on, offTime := off, playTime := pt }) :
+    ∀ (n : Nat) (s s' : PState) (ws : List (List Event)), ctRun song root n s = some (s', ws) → I s.acc → I s'.acc := by
+  have hsettle : ∀ (f : Nat) (s s' : PState) (w : List Event), ctSettle song root f s = some (s', w) → I s.acc → I s'.acc := by
+    intro f
+    induction f with
+    | zero =>
+      intro s s' w h hi
+      simp only [ctSettle] at h
+      split at h
+      · simp at h
+      · simp only [Option.some.injEq, Prod.mk.injEq] at h; rw [← h.1]; exact hi
+    | succ f ih =>
+      intro s s' w h hi
+      simp only [ctSettle] at h
+      split at h
+      · cases hs : step song root true s with
+        | error e => rw [hs] at h; simp at h
+        | ok q =>
+          obtain ⟨s1, em⟩ := q
+          rw [hs] at h
+          simp only at h
+          cases hc : ctSettle song root f s1 with
+          | none => rw [hc] at h; simp at h
+          | some r =>
+            rw [hc] at h
+            simp only [Option.map_some, Option.some.injEq, Prod.mk.injEq] at h
+            rw [← h.1]
+            exact ih s1 r.1 r.2 (by rw [hc]) (hstep s s1 em hs hi)
+      · simp only [Option.some.injEq, Prod.mk.injEq] at h; rw [← h.1]; exact hi
+  intro n
+  induction n with
+  | zero =>
+    intro s s' ws h hi
+    simp only [ctRun, Option.some.injEq, Prod.mk.injEq] at h; rw [← h.1]; exact hi
+  | succ n ih =>
+    intro s s' ws h hi
+    simp only [ctRun] at h
+    cases ht : ctTick song root s with
+    | none => rw [ht] at h; simp at h
+    | some r =>
+      obtain ⟨s1, w⟩ := r
+      rw [ht] at h
+      simp only at h
+      cases hr : ctRun song root n s1 with
+      | none => rw [hr] at h; simp at h
+      | some r2 =>
+        rw [hr] at h
+        simp only [Option.map_some, Option.some.injEq, Prod.mk.injEq] at h
+        rw [← h.1]
+        apply ih s1 r2.1 r2.2 (by rw [hr])
+        unfold ctTick at ht
+        cases hc : ctSettle song root settleFuel (ctDec s).1 with
+        | none => rw [hc] at ht; simp at ht
+        | some q =>
+          rw [hc] at ht
+          simp only [Option.map_some, Option.some.injEq, Prod.mk.injEq] at ht
+          rw [← ht.1]
+          apply hsettle settleFuel (ctDec s).1 q.1 q.2 (by rw [hc])
+          unfold ctDec
+          split
+          · exact htime s.acc _ _ _ hi
+          · split
+            · exact htime s.acc _ _ _ hi
+            · exact hi
+
+theorem ctRun_jumpInv (n : Nat) (s s' : PState) (ws : List (List Event)) (h : ctRun song root n s = some (s', ws))
+    (hi : JumpInv s.acc) : JumpInv s'.acc :=
+  ctRun_accInv song root JumpInv (step_jumpInv song root) (fun _ _ _ _ h => h) n s s' ws h hi
+
+end
+
+theorem resetLoopCh_jumpInv (c : Ch) (h : JumpInv c.ps.acc) : JumpInv (resetLoopCh c).ps.acc := by
+  unfold resetLoopCh
+  simp only
+  split
+  · intro _; simp
+  · exact h
+
 theorem resetLoopCh_countInv (c : Ch) (h : CountInv c.ps.acc) : CountInv (resetLoopCh c).ps.acc := by
   unfold resetLoopCh
   simp only
@@ -273,6 +386,56 @@ theorem single_noloop (id : Nat) (hsingle : SingleTrack song id root)
   · intro j hj
     obtain ⟨c', hc', hl, _, _, _⟩ := hcount (j + 1) (by omega)
     exact updMark_nil_of d song _ j c' hc' hl
+
+/-- **One channel track, any loop structure**: the export's stop condition can only hold once the
+machine has stopped or has jumped back to the loop point at least once. -/
+theorem single_stop_after_pass (id : Nat) (hsingle : SingleTrack song id root)
+    (cEnd : Core) (B : Nat) (hend : EndOK song root cEnd) (hB : 2 * B + 2 ≤ settleFuel)
+    (hpl : PlainHooks song root) (m0 : LX)
+    (hrel0 : RelX song root cEnd B ⟨⟨.root, 0, []⟩, {}⟩ m0)
+    (k : Nat) (herr : ∀ j, j ≤ k → (updRun d song j (playSong d song).1).g.err = none)
+    (hstop : stopCond (updRun d song k (playSong d song).1)) :
+    (lxAfter (updRun d song k (playSong d song).1).ticks m0).enabled = false ∨
+      (lxAfter (updRun d song k (playSong d song).1).ticks m0).lastJump ≠ -1 := by
+  obtain ⟨b0, v0, c0, a0⟩ := mkCh_base d root id
+  obtain ⟨c, hc, ⟨_, _, hji⟩, hrel⟩ := single_inv d song root id hsingle cEnd B hend hB
+      (fun c => Base root c ∧ VarsOK c ∧ JumpInv c.ps.acc)
+      (fun c hc => by
+        obtain ⟨r1, r2, r3, r4, r5, r6, r7, _⟩ := resetLoopCh_same c
+        exact ⟨⟨r2.trans hc.1.root, r4.trans hc.1.err, by rw [r5]; exact hc.1.drum⟩,
+          ⟨by rw [r5]; exact hc.2.1.1, by rw [r5]; exact hc.2.1.2⟩, resetLoopCh_jumpInv c hc.2.2⟩)
+      (fun n g c s' ws hc hg hrun => by
+        rcases chUpdate_tempo d song root hpl n g c hc.1 hc.2.1 hg s' ws hrun with h | ⟨a1, a2, a3, a4, _⟩
+        · exact Or.inl h
+        · refine Or.inr ⟨a1, a2, a3, a4, ?_⟩
+          rw [a2]; exact ctRun_jumpInv song root n _ s' ws hrun hc.2.2)
+      ⟨b0, v0, by rw [a0]; intro _; decide⟩ m0 (by rw [c0, a0]; exact hrel0) k herr
+  have hen : c.ps.acc.enabled = (lxAfter (updRun d song k (playSong d song).1).ticks m0).enabled := hrel.1
+  have hlj : c.ps.acc.lastLoopJump = (lxAfter (updRun d song k (playSong d song).1).ticks m0).lastJump := hrel.2.2.2.2.2.1
+  cases he : (lxAfter (updRun d song k (playSong d song).1).ticks m0).enabled with
+  | false => exact Or.inl rfl
+  | true =>
+    right
+    rw [he] at hen
+    unfold stopCond at hstop
+    have hplay : isPlaying (updRun d song k (playSong d song).1) = true := by
+      unfold isPlaying; rw [hc]; simp [Ch.enabled, hen]
+    rw [hplay] at hstop
+    rcases hstop with h | h
+    · simp at h
+    · unfold loopCount at h
+      rw [hc] at h
+      simp only [List.isEmpty_cons, Bool.false_eq_true, if_false, List.foldl_cons, List.foldl_nil, Ch.enabled, hen, true_and] at h
+      have hlc : c.ps.acc.loopCount ≥ 1 := by
+        unfold loopCountOf at h
+        simp only [vgm_export_num_loops] at h
+        have hI : intMax = 2147483647 := rfl
+        by_cases hlt : min c.ps.acc.loopResetCount c.ps.acc.loopCount < intMax
+        · rw [if_pos hlt] at h; omega
+        · omega
+      intro hh
+      have := hji (hlj.trans hh)
+      omega
 
 end
 
